@@ -229,6 +229,8 @@ struct GenOpts {
     int heavy_tail_pm = 0;         // per-mille: bimodal weights (few very heavy edges) replace the all-unit scheme
     int boundary_pm = 0;           // per-mille: a sparse graph whose size sits on a power-of-two boundary
     int boundary_max_n = 257;
+    int dense_pm = 0;              // per-mille: 13..17 vertices, (nearly) complete: candidate lists of the tree variants reach
+                                   // 300..1800 entries, beyond the grain / block sizes (256, 1000) parallel code typically uses
 };
 
 inline int gen_structure(Rng &r, int max_n, EL &el, std::string &family, bool force_core = false, bool big_core = false, bool force_multi = false) {
@@ -386,6 +388,16 @@ inline GGraph gen_boundary_graph(Rng &r, const GenOpts &o) {
 // One graph in the domain of C01/C02 (simple, positive weights, exact sums) within the bounds.
 inline GGraph gen_graph(Rng &r, const GenOpts &o) {
     if (o.boundary_pm > 0 && r.chance((unsigned) o.boundary_pm)) return gen_boundary_graph(r, o);
+    if (o.dense_pm > 0 && r.chance((unsigned) o.dense_pm)) {
+        EL del; int dn = (int) r.range(13, 17);
+        if (r.chance(400)) fam_complete(dn, del); else fam_gnp(r, dn, 0.7 + 0.3 * r.unit(), del);
+        dedup(del);
+        GGraph g = from_el(dn, del); g.family = "dense";
+        GenOpts o2 = o; o2.max_weight = std::min<int64_t>(o.max_weight, r.chance(500) ? 12 : 4000);
+        assign_weights(r, g, o2);
+        relabel_and_shuffle(r, g);
+        return g;
+    }
     if (o.wide_pm > 0 && r.chance((unsigned) o.wide_pm)) {
         // 18..26 vertices with a cycle space of dimension 17..30: support vectors (and vertex ranges) longer than
         // the block / grain sizes (16, 64 candidates) a parallel implementation may cut its work into
